@@ -11,7 +11,7 @@ RULE = ("every multiset of <=N (address,count) ranges (in every order of present
         "overlapping/nested/adjacent/duplicate shapes) x every reach x every limit; shatter over address x count x limit. "
         "non-trivial = distinct (ranges,reach,limit) where at least two input ranges interact (overlap, touch or lie "
         "within reach) or the output differs from the sorted input")
-BOUNDS_NOTE = "poller: every non-empty subset of 7 addresses in 3 banks x reach {1,3,100} x {no failure, one transient read failure at read k of cycle c, a read failing in every cycle, a register added later} x failure kind {exception response, no response, connection error}, 4 poll cycles of the real poller_modbus._poller under a virtual clock"
+BOUNDS_NOTE = "poller: every non-empty subset of 9 addresses in 3 banks (two of them far enough to make a merged run longer than one transfer) x reach {1,3,100} x {no failure, one transient read failure at read k of cycle c, a read failing in every cycle, a register added later, the reach changed after cycle 1} x failure kind {exception response, no response, connection error}, 4 poll cycles of the real poller_modbus._poller under a virtual clock"
 BOUNDS = {
     "quick": "multisets of <=3 ranges over 73-range alphabet, of 4 over the 24-range low cluster; reach {None,0,1,2,5,100}; limit {None,1,2,3}",
     "thorough": "multisets of <=4 ranges over the full 73-range alphabet; same reach/limit; shatter counts 0..2100",
@@ -97,7 +97,7 @@ def validate(out, want, ranges, reach, limit):
 # the poller: "polls exactly the merged ranges and stores only known addresses" -- the real poller_modbus._poller loop under a
 # virtual clock with a scripted device (reads may fail transiently), for several poll cycles
 
-POLL_ADDRS = [1, 2, 10001, 40001, 40002, 40004, 40010]
+POLL_ADDRS = [1, 2, 10001, 40001, 40002, 40004, 40010, 40100, 40150]    # 40001..40150 merge (reach 100) into a run longer than one transfer
 
 
 def run_poller(addresses, reach, cycles, fail, add_later, exc_kind="base"):
@@ -150,7 +150,10 @@ def run_poller(addresses, reach, cycles, fail, add_later, exc_kind="base"):
             clock[0] += max(d, 0.0)
             if p.counter >= cycles:
                 p.done = True
-            if add_later is not None and p.counter == add_later[0] and add_later[1] not in p._data:
+            if add_later is not None and add_later[0] == "reach":
+                if p.counter == add_later[1]:
+                    p.reach = add_later[2]                  # the documented, user-alterable reach: applies to the following cycles
+            elif add_later is not None and p.counter == add_later[0] and add_later[1] not in p._data:
                 p._poll(add_later[1])
                 known.append(set(p._data))
 
@@ -183,22 +186,28 @@ def run_poller(addresses, reach, cycles, fail, add_later, exc_kind="base"):
         reads = log.get(cyc, [])
         must = set(addresses)                     # registers that certainly were known before this cycle's merge
         may = set(addresses)                      # ... and those that may have been (registered while this cycle was starting)
-        if add_later is not None:
+        reach_now = reach
+        if add_later is not None and add_later[0] == "reach":
+            if cyc > add_later[1]:
+                reach_now = add_later[2]
+            elif cyc == add_later[1]:
+                reach_now = max(reach, add_later[2])        # the cycle during which it changed: either reach is acceptable
+        elif add_later is not None:
             if cyc > add_later[0]:
                 must.add(add_later[1])
             if cyc >= add_later[0]:
                 may.add(add_later[1])
         ranges = [(a, c) for a, c, _ in reads]
-        for kind, msg in validate(sorted(ranges), must, sorted((a, 1) for a in must), reach, None):
+        for kind, msg in validate(sorted(ranges), must, sorted((a, 1) for a in must), reach_now, None):
             if kind == "beyond-reach":
                 continue
             bad.append(("poller:" + kind, "cycle %d of %s: %s" % (cyc, desc, msg)))
-        for kind, msg in validate(sorted(ranges), may, sorted((a, 1) for a in may), reach, None):
+        for kind, msg in validate(sorted(ranges), may, sorted((a, 1) for a in may), reach_now, None):
             if kind == "beyond-reach":
                 bad.append(("poller:" + kind, "cycle %d of %s: %s" % (cyc, desc, msg)))
         if len(set(ranges)) != len(ranges):
             bad.append(("poller:range-polled-twice", "cycle %d of %s polled %r" % (cyc, desc, ranges)))
-    extra = set(p._data) - set(addresses) - ({add_later[1]} if add_later else set())
+    extra = set(p._data) - set(addresses) - ({add_later[1]} if add_later and add_later[0] != "reach" else set())
     if extra:
         bad.append(("poller:stored-unknown-address", "%s: poller stored addresses nobody asked for: %r" % (desc, sorted(extra))))
     # values: every address whose last read succeeded holds the device's value
@@ -321,6 +330,8 @@ def poller_cases(tier):
                     yield sub, reach, 4, f, None, ek
             yield sub, reach, 4, frozenset({(1, 0)}), (1, 40003), "base"
             yield sub, reach, 4, frozenset(), (0, 3), "base"
+        for old, new in ((100, 1), (1, 100), (3, 1)):
+            yield sub, old, 4, frozenset(), ("reach", 1, new), "base"
 
 
 def poller_shard(acc, item, tier, seed):
